@@ -134,10 +134,13 @@ def tol_for(*dts):
     return 2e-4 if single else 1e-9
 
 
-def axes_subset(ndim, allow_none=True, nonempty=True, negative=True):
-    """A subset of axes in arbitrary order, entries possibly given as negative aliases."""
+def axes_subset(ndim, allow_none=True, nonempty=True, negative=True, allow_empty=False):
+    """A subset of axes in arbitrary order, entries possibly given as negative aliases.  allow_empty: about one in
+    twenty draws is the empty subset (the operation over no axes is the identity)."""
     @st.composite
     def _s(draw):
+        if allow_empty and draw(st.sampled_from([False] * 19 + [True])):
+            return []
         if allow_none and draw(st.integers(0, 5)) == 0:
             return None
         idx = draw(st.lists(st.integers(0, ndim - 1), min_size=1 if nonempty else 0, max_size=ndim, unique=True))
